@@ -30,6 +30,10 @@ pub struct Font {
     pub bchar: Option<u8>,
     /// `bchar_label` (§549/§576): start of the left boundary program; None = `non_address`.
     pub bchar_label: Option<usize>,
+    /// false = TeX. true = the reading of TFtoPL §91 `hash_input`, which enters *every* word of a chain
+    /// as a ligature/kern command, also words with skip byte > 128 that TeX never executes (the
+    /// "phantom ligature"). Only used to characterise a deviation; never the expectation.
+    pub exec_stop_words: bool,
 }
 
 impl Font {
@@ -39,7 +43,7 @@ impl Font {
         for (c, s) in starts {
             start[*c as usize] = Some(*s);
         }
-        Font { words, start, bchar, bchar_label }
+        Font { words, start, bchar, bchar_label, exec_stop_words: false }
     }
 
     /// Entry points as a TFM file gives them: `lig_rem[c]` is the remainder byte of every character
@@ -73,7 +77,7 @@ impl Font {
             }
             _ => None,
         };
-        Font { words, start, bchar, bchar_label }
+        Font { words, start, bchar, bchar_label, exec_stop_words: false }
     }
 }
 
@@ -283,7 +287,7 @@ pub fn run(font: &Font, word: &[u8], left_boundary: bool, bchar: Option<u8>, bud
                     continue;
                 };
                 let [skip, next, op, rem] = j;
-                if next as i32 == cur_r && skip <= STOP_FLAG {
+                if next as i32 == cur_r && (skip <= STOP_FLAG || font.exec_stop_words) {
                     // §1040
                     let f = Fired { k: main_k, kern: op >= KERN_FLAG, left_boundary: cur_l == NON_CHAR, right_boundary: lig_stack.is_empty(), on_ligature: ligature_present || r_inserted };
                     out.fired.push(f);
@@ -466,7 +470,7 @@ pub fn chain(font: &Font, x: i32) -> Vec<(usize, Word)> {
 pub fn command_for(font: &Font, x: i32, y: u8) -> Option<(usize, Word)> {
     for (k, w) in chain(font, x) {
         if w[1] == y {
-            return if w[0] <= STOP_FLAG { Some((k, w)) } else { None };
+            return if w[0] <= STOP_FLAG || font.exec_stop_words { Some((k, w)) } else { None };
         }
     }
     None
@@ -482,7 +486,7 @@ pub fn knuth_loop(font: &Font) -> Option<(i32, i32)> {
     for x in (0..=256).map(|c| c as i32) {
         for (_, w) in chain(font, x) {
             let [skip, y, t, rem] = w;
-            if skip > STOP_FLAG {
+            if skip > STOP_FLAG && !font.exec_stop_words {
                 continue; // never executed by TeX (§1039); TFtoPL's hash_input would enter it
             }
             let hk = key(x, y as i32);
@@ -539,7 +543,7 @@ pub fn lig_pairs(font: &Font) -> Vec<(i32, u8)> {
                 continue;
             }
             seen[w[1] as usize] = true;
-            if w[0] <= STOP_FLAG && w[2] < KERN_FLAG {
+            if (w[0] <= STOP_FLAG || font.exec_stop_words) && w[2] < KERN_FLAG {
                 out.push((x, w[1]));
             }
         }
